@@ -127,7 +127,17 @@ def who_writes_the_counter(ctx):
                 st = enclosing_stmt(node)
                 construct = fi.qualname
                 if fi.anchor not in ALLOWED_COUNTER_WRITERS:
-                    ctx.bad(construct, 'the evaluation counter is written outside the wrapper that counts calls (%s)' % tgt[0], fi, st)
+                    # the statement key carries the guard under which the write happens (locals substituted), so that a
+                    # recorded finding does not cover the same write made under a different condition
+                    bld = T.Builder()
+                    for s0 in stmts_of(fi.node):
+                        if s0.lineno >= st.lineno:
+                            break
+                        if isinstance(s0, ast.Assign) and len(s0.targets) == 1 and isinstance(s0.targets[0], ast.Name) and not guards_of(s0, stop=fi.node):
+                            bld.exec_stmt(s0)
+                    gtxt = ' and '.join(('' if tr else 'not ') + T.show(T.simp(bld.t(g)))[:60] for g, tr, _ in reversed(guards_of(st, stop=fi.node)))
+                    ctx.bad(construct, 'the evaluation counter is written outside the wrapper that counts calls (%s)%s' % (tgt[0], ' when ' + gtxt if gtxt else ' unconditionally'),
+                            fi, st, statement=('if %s: ' % gtxt if gtxt else '') + norm_stmt(st))
                     continue
                 if fi.name == '_decorate_objective':
                     # self._fcalls, cost = wrap_function(..., start=<old count>)
@@ -390,3 +400,43 @@ def who_writes_the_energies(ctx):
                 ctx.check(allowed, fi.qualname + '#' + hit, 'allowed writer of the stored energies',
                           '%s overwrites the stored energy %s outside an optimisation step: the best-so-far can be discarded or worsen' % (fi.qualname, hit), fi, st)
     ctx.need(n >= 8, 'expected >= 8 writers of the stored energies, found %d' % n)
+
+
+@rule('C04.i', min_instances=2)
+def carried_over_history_keeps_its_order(ctx):
+    """when a monitor is replaced, the old records are carried over in their original order: Monitor.prepend inserts every array at its enumerate index and Monitor.extend appends array by array (shared with C20.a) - otherwise the best-energy history of a continued run is no longer non-increasing and the evaluation log is out of call order"""
+    from .c20 import parallel_arrays_move_together
+    parallel_arrays_move_together(ctx)
+
+
+@rule('C04.j', min_instances=4)
+def inputs_are_processed_before_the_objective_is_bound(ctx):
+    """every _Step activates its keyword settings (self._process_inputs: monitors, constraints, penalty, limits given to Step/Solve) before it binds the decorated objective (self._bootstrap_objective): bound the other way round, the step still evaluates through the objective that closes over the old evaluation monitor / constraints, and its evaluations are not recorded where the caller asked"""
+    for key, anchor in sorted(CONCRETE_SOLVERS.items()):
+        f = ctx.func(anchor + '._Step')
+        sn = selfname_of(f)
+
+        def rel(n):
+            return isinstance(n, ast.Call) and (self_call(n, '_process_inputs', sn) or self_call(n, '_bootstrap_objective', sn))
+        paths = enumerate_paths(f.node, relevant=rel, unroll=(0, 1))
+        ctx.stats['paths_enumerated'] += len(paths)
+        bad = None
+        n_b = 0
+        for p in paths:
+            seen_pi = False
+            for e in p.events:
+                nodes = [e[1]] if e[0] in ('stmt', 'cond', 'partial') else []
+                for nd in nodes:
+                    for c in calls_where(nd, rel, include_lambda=False):
+                        if self_call(c, '_process_inputs', sn):
+                            seen_pi = True
+                        elif not seen_pi:
+                            bad = (p, c)
+                        else:
+                            n_b += 1
+            if bad:
+                break
+        ctx.need(bad is not None or n_b > 0, '%s._Step: no self._bootstrap_objective call found' % key)
+        ctx.check(bad is None, '%s._Step#inputs-before-objective' % f.qualname.split('.')[0], 'self._process_inputs(kwds) precedes self._bootstrap_objective(...) on every path',
+                  '%s binds the decorated objective before it has processed its keyword settings: an EvaluationMonitor / constraints / penalty given to Step is not in force for this iteration'
+                  % f.qualname, f, bad[1] if bad else f.node)
